@@ -194,6 +194,15 @@ Record ainv (σ : astate) : Prop := {
   i_tid : a_tid σ = (ac_tid_init C + a_alloc σ) mod 65536;
   i_pend : forall k d, In (k, d) (a_pending σ) -> In (d, k) (a_sent σ) }.
 
+(* the invariant only looks at these six fields *)
+Lemma ainv_ext : forall σ σ',
+  a_tid σ' = a_tid σ -> a_alloc σ' = a_alloc σ -> a_pending σ' = a_pending σ -> a_fired σ' = a_fired σ ->
+  a_sent σ' = a_sent σ -> a_lost σ' = a_lost σ -> ainv σ -> ainv σ'.
+Proof.
+  intros σ σ' H1 H2 H3 H4 H5 H6 [I1 I2 I3 I4 I5].
+  constructor; unfold Lst, issued in *; rewrite ?H1, ?H2, ?H3, ?H4, ?H5, ?H6; auto.
+Qed.
+
 Lemma ainv_init : ainv (init_state C).
 Proof.
   destruct HC as (_ & _ & Hlt & _).
@@ -211,121 +220,121 @@ Proof.
   cbn in Hd. subst d. destruct (i_range σ I _ _ Hin). lia.
 Qed.
 
-Definition M (pf : list (N * N) * list (N * outcome)) : list N := map snd (fst pf) ++ map fst (snd pf).
-
-Lemma handle_perm : forall v pf tid rid, Permutation (M (handle C v pf tid rid)) (M pf).
+Lemma sent_range_snoc : forall σ, ainv σ ->
+  forall d0 t0, In (d0, t0) (a_sent σ ++ [(a_alloc σ + 1, (ac_tid_init C + (a_alloc σ + 1)) mod 65536)]) ->
+  1 <= d0 <= a_alloc σ + 1 /\ t0 = (ac_tid_init C + d0) mod 65536.
 Proof.
-  intros v [p f] tid rid. unfold handle.
-  destruct (get_tx v p (if ac_handle_by_reply_tid C then tid else 0)) as [[d p']|] eqn:E; [|apply Permutation_refl].
-  unfold M. cbn. rewrite map_app. cbn. rewrite <- (get_tx_perm _ _ _ _ _ E).
-  rewrite app_assoc. rewrite <- Permutation_cons_append. cbn. apply Permutation_refl.
+  intros σ I d0 t0 Hin. apply in_app_or in Hin. destruct Hin as [Hin|[Heq|[]]].
+  - destruct (i_range σ I _ _ Hin). split; auto; lia.
+  - inversion Heq; subst. split; auto; lia.
 Qed.
 
-Lemma handle_sub : forall v pf tid rid x, In x (fst (handle C v pf tid rid)) -> In x (fst pf).
+Lemma ainv_issue_failed : forall σ, ainv σ -> ainv (issue_failed C σ).
 Proof.
-  intros v [p f] tid rid x. unfold handle.
-  destruct (get_tx v p (if ac_handle_by_reply_tid C then tid else 0)) as [[d p']|] eqn:E; cbn; auto.
-  destruct (get_tx_sub _ _ _ _ _ E) as [_ Hs]. auto.
+  intros σ I. pose proof (issued_fresh σ I) as Hfresh. unfold issue_failed.
+  rewrite next_tid_eq, (i_tid σ I), mod_succ.
+  constructor; cbn.
+  - unfold Lst, issued. cbn. rewrite !map_app. cbn. rewrite !app_assoc.
+    apply Permutation_app_tail. rewrite <- !app_assoc. exact (i_perm σ I).
+  - unfold issued. cbn. rewrite map_app. apply NoDup_snoc; [apply (i_nodup σ I)|exact Hfresh].
+  - apply sent_range_snoc; auto.
+  - reflexivity.
+  - intros k d0 Hin. apply in_or_app. left. apply (i_pend σ I); auto.
 Qed.
 
-Lemma seg_loop_perm : forall v u0 frames pf, Permutation (M (seg_loop C v u0 frames pf)) (M pf).
+Lemma ainv_issue_pending : forall v σ, ainv σ -> ainv (issue_pending C v σ).
 Proof.
-  induction frames as [|[[u tid] rid] r IH]; intros pf; cbn; [apply Permutation_refl|].
-  destruct (unit_ok u0 u); [|apply Permutation_refl].
-  rewrite IH. apply handle_perm.
+  intros v σ I. pose proof (issued_fresh σ I) as Hfresh. unfold issue_pending.
+  rewrite next_tid_eq, (i_tid σ I), mod_succ.
+  set (d := a_alloc σ + 1). set (t := (ac_tid_init C + d) mod 65536).
+  destruct (add_tx v (a_pending σ) t d) as [p' o] eqn:Ea. constructor; cbn.
+  - unfold Lst, issued. cbn. rewrite map_app. cbn.
+    replace (match o with Some x => a_lost σ ++ [x] | None => a_lost σ end) with (a_lost σ ++ olist o)
+      by (destruct o; cbn; auto using app_nil_r).
+    apply perm_exec with (p := map snd (a_pending σ)).
+    + eapply add_tx_perm; eauto.
+    + exact (i_perm σ I).
+  - unfold issued. cbn. rewrite map_app. apply NoDup_snoc; [apply (i_nodup σ I)|exact Hfresh].
+  - apply sent_range_snoc; auto.
+  - reflexivity.
+  - intros k d0 Hin. apply in_or_app. destruct (add_tx_in _ _ _ _ _ _ _ Ea Hin) as [Heq|Hold].
+    + inversion Heq; subst. right. left. reflexivity.
+    + left. apply (i_pend σ I); auto.
 Qed.
 
-Lemma seg_loop_sub : forall v u0 frames pf x, In x (fst (seg_loop C v u0 frames pf)) -> In x (fst pf).
+Lemma ainv_execute : forall v σ, ainv σ -> ainv (do_execute C v σ).
 Proof.
-  induction frames as [|[[u tid] rid] r IH]; intros pf x; cbn; auto.
-  destruct (unit_ok u0 u); auto. intro H. apply IH in H. eapply handle_sub; eauto.
+  intros v σ I. unfold do_execute. destruct (guard_fails C σ); [apply ainv_issue_failed|apply ainv_issue_pending]; auto.
 Qed.
 
-Lemma lost_loop_perm : forall v keys pf, Permutation (M (lost_loop C v keys pf)) (M pf).
+Lemma ainv_react : forall v σ d o, ainv σ -> ainv (react C v σ d o).
 Proof.
-  induction keys as [|k r IH]; intros [p f]; cbn; [apply Permutation_refl|].
-  destruct (get_tx v p k) as [[d p']|] eqn:E; [|apply Permutation_refl].
-  rewrite IH. unfold M. cbn. rewrite map_app. cbn. rewrite <- (get_tx_perm _ _ _ _ _ E).
-  rewrite app_assoc. rewrite <- Permutation_cons_append. cbn. apply Permutation_refl.
+  intros v σ d o I. unfold react.
+  destruct (match o with OErr _ => memN d (a_rerr σ) | OCb _ _ => memN d (a_rcb σ) end); auto using ainv_execute.
 Qed.
 
-Lemma lost_loop_sub : forall v keys pf x, In x (fst (lost_loop C v keys pf)) -> In x (fst pf).
+Lemma ainv_move_fired : forall v σ k d p' o, ainv σ -> get_tx v (a_pending σ) k = Some (d, p') ->
+  ainv (move_fired σ p' d o).
 Proof.
-  induction keys as [|k r IH]; intros [p f] x; cbn; auto.
-  destruct (get_tx v p k) as [[d p']|] eqn:E; cbn; auto.
-  intro H. apply IH in H. cbn in H. destruct (get_tx_sub _ _ _ _ _ E) as [_ Hs]. auto.
+  intros v σ k d p' o I E. destruct (get_tx_sub _ _ _ _ _ E) as [_ Hs].
+  constructor; cbn; auto using (i_nodup σ I), (i_range σ I), (i_tid σ I).
+  - unfold Lst, issued. cbn. rewrite <- (i_perm σ I). unfold Lst. apply Permutation_app_head.
+    rewrite map_app. cbn. rewrite <- (get_tx_perm _ _ _ _ _ E).
+    rewrite app_assoc. rewrite <- Permutation_cons_append. cbn. apply Permutation_refl.
+  - intros k0 d0 Hin. apply (i_pend σ I). apply Hs. exact Hin.
 Qed.
 
-(* for tid in list(self.transaction): every entry is popped and errbacked, in order *)
-Lemma lost_loop_all : forall v p f,
-  lost_loop C v (map fst p) (p, f) = ([], f ++ map (fun x => (snd x, OErr (ac_lost_exn C))) p).
+Lemma ainv_handle : forall v σ tid rid, ainv σ -> ainv (handle C v σ tid rid).
 Proof.
-  intros v p. induction p as [|[k d] r IH]; intros f; cbn.
-  - rewrite app_nil_r. reflexivity.
-  - assert (E : get_tx v ((k, d) :: r) k = Some (d, r)).
-    { destruct v; cbn; [rewrite N.eqb_refl|]; reflexivity. }
-    rewrite E. rewrite IH. rewrite <- app_assoc. reflexivity.
+  intros v σ tid rid I. unfold handle.
+  destruct (get_tx v (a_pending σ) _) as [[d p']|] eqn:E; auto.
+  apply ainv_react. eapply ainv_move_fired; eauto.
+Qed.
+
+Lemma ainv_seg_loop : forall v u0 frames σ, ainv σ -> ainv (seg_loop C v u0 frames σ).
+Proof.
+  induction frames as [|[[u tid] rid] r IH]; intros σ I; cbn; auto.
+  apply IH. destruct (unit_ok u0 u); auto using ainv_handle.
+Qed.
+
+Lemma ainv_lost_loop : forall v keys σ, ainv σ -> ainv (lost_loop C v keys σ).
+Proof.
+  induction keys as [|k r IH]; intros σ I; cbn; auto.
+  destruct (get_tx v (a_pending σ) k) as [[d p']|] eqn:E; auto.
+  apply IH. apply ainv_react. eapply ainv_move_fired; eauto.
+Qed.
+
+Lemma ainv_set_conn : forall σ b, ainv σ -> ainv (set_conn σ b).
+Proof. intros σ b I. apply (ainv_ext σ); auto. Qed.
+
+Lemma ainv_register : forall σ d re rc, ainv σ -> ainv (register σ d re rc).
+Proof. intros σ d re rc I. apply (ainv_ext σ); auto. Qed.
+
+Lemma ainv_execute_k : forall v σ re rc, ainv σ -> ainv (do_execute_k C v σ re rc).
+Proof.
+  intros v σ re rc I. unfold do_execute_k.
+  pose proof (ainv_register σ (a_alloc σ + 1) re rc I) as I1.
+  destruct (guard_fails C (register σ (a_alloc σ + 1) re rc)).
+  - apply ainv_react. apply ainv_issue_failed. exact I1.
+  - apply ainv_issue_pending. exact I1.
 Qed.
 
 Lemma ainv_step : forall v σ o, ainv σ -> ainv (astep C v σ o).
 Proof.
-  intros v σ o I. pose proof (issued_fresh σ I) as Hfresh.
-  destruct o as [|frames| | |n]; cbn [astep].
-  - (* Execute *)
-    unfold do_execute. rewrite next_tid_eq, (i_tid σ I), mod_succ.
-    set (d := a_alloc σ + 1). set (t := (ac_tid_init C + d) mod 65536).
-    assert (Hr : forall d0 t0, In (d0, t0) (a_sent σ ++ [(d, t)]) ->
-                 1 <= d0 <= d /\ t0 = (ac_tid_init C + d0) mod 65536).
-    { intros d0 t0 Hin. apply in_app_or in Hin. destruct Hin as [Hin|[Heq|[]]].
-      - destruct (i_range σ I _ _ Hin). unfold d. split; auto; lia.
-      - inversion Heq; subst. unfold d. split; auto; lia. }
-    assert (Hn : NoDup (issued σ ++ [d])).
-    { apply NoDup_snoc; [apply (i_nodup σ I)|exact Hfresh]. }
-    destruct (ac_build_guard C && negb (a_conn σ)).
-    + constructor; cbn; auto.
-      * unfold Lst, issued. cbn. rewrite !map_app. cbn. rewrite !app_assoc.
-        apply Permutation_app_tail. rewrite <- !app_assoc. exact (i_perm σ I).
-      * unfold issued. cbn. rewrite map_app. exact Hn.
-      * intros k d0 Hin. apply in_or_app. left. apply (i_pend σ I); auto.
-    + destruct (add_tx v (a_pending σ) t d) as [p' o] eqn:Ea. constructor; cbn; auto.
-      * unfold Lst, issued. cbn. rewrite map_app. cbn.
-        replace (match o with Some x => a_lost σ ++ [x] | None => a_lost σ end) with (a_lost σ ++ olist o)
-          by (destruct o; cbn; auto using app_nil_r).
-        apply perm_exec with (p := map snd (a_pending σ)).
-        -- eapply add_tx_perm; eauto.
-        -- exact (i_perm σ I).
-      * unfold issued. cbn. rewrite map_app. exact Hn.
-      * intros k d0 Hin. apply in_or_app. destruct (add_tx_in _ _ _ _ _ _ _ Ea Hin) as [Heq|Hold].
-        -- inversion Heq; subst. right. left. reflexivity.
-        -- left. apply (i_pend σ I); auto.
-  - (* Segment *)
-    unfold do_segment.
-    set (u0 := match frames with (u, _, _) :: _ => u | [] => ac_unit_default C end).
-    pose proof (seg_loop_perm v u0 frames (a_pending σ, a_fired σ)) as Hp.
-    pose proof (seg_loop_sub v u0 frames (a_pending σ, a_fired σ)) as Hs.
-    destruct (seg_loop C v u0 frames (a_pending σ, a_fired σ)) as [p' f'].
-    constructor; cbn; auto using (i_nodup σ I), (i_range σ I), (i_tid σ I).
-    + unfold Lst, issued. cbn. rewrite <- (i_perm σ I). unfold Lst.
-      apply Permutation_app_head. exact Hp.
-    + intros k d Hin. apply (i_pend σ I). apply (Hs (k, d)). exact Hin.
-  - (* Lost *)
-    unfold do_lost.
-    assert (Hp : Permutation (M (if ac_lost_loop C then lost_loop C v (map fst (a_pending σ)) (a_pending σ, a_fired σ)
-                                 else (a_pending σ, a_fired σ))) (M (a_pending σ, a_fired σ))).
-    { destruct (ac_lost_loop C); [apply lost_loop_perm|apply Permutation_refl]. }
-    assert (Hs : forall x, In x (fst (if ac_lost_loop C then lost_loop C v (map fst (a_pending σ)) (a_pending σ, a_fired σ)
-                                 else (a_pending σ, a_fired σ))) -> In x (a_pending σ)).
-    { destruct (ac_lost_loop C); [apply lost_loop_sub|auto]. }
-    destruct (if ac_lost_loop C then lost_loop C v (map fst (a_pending σ)) (a_pending σ, a_fired σ)
-              else (a_pending σ, a_fired σ)) as [p' f'].
-    constructor; cbn; auto using (i_nodup σ I), (i_range σ I), (i_tid σ I).
-    + unfold Lst, issued. cbn. rewrite <- (i_perm σ I). unfold Lst.
-      apply Permutation_app_head. exact Hp.
-    + intros k d Hin. apply (i_pend σ I). apply (Hs (k, d)). exact Hin.
-  - (* Made *)
-    unfold do_made. constructor; cbn; auto using (i_perm σ I), (i_nodup σ I), (i_range σ I), (i_tid σ I), (i_pend σ I).
-  - (* Skip *)
-    unfold do_skip. constructor; cbn; auto using (i_perm σ I), (i_nodup σ I), (i_pend σ I).
+  intros v σ o I. destruct o as [| | |frames| | |n]; cbn [astep].
+  - apply ainv_execute; auto.
+  - apply ainv_execute_k; auto.
+  - apply ainv_execute_k; auto.
+  - unfold do_segment. apply ainv_seg_loop; auto.
+  - unfold do_lost.
+    assert (I0 : ainv (if ac_lost_clears C && ac_lost_clear_first C then set_conn σ false else σ))
+      by (destruct (ac_lost_clears C && ac_lost_clear_first C); auto using ainv_set_conn).
+    set (σ0 := if ac_lost_clears C && ac_lost_clear_first C then set_conn σ false else σ) in *.
+    assert (I1 : ainv (if ac_lost_loop C then lost_loop C v (map fst (a_pending σ0)) σ0 else σ0))
+      by (destruct (ac_lost_loop C); auto using ainv_lost_loop).
+    destruct (ac_lost_clears C && negb (ac_lost_clear_first C)); auto using ainv_set_conn.
+  - unfold do_made. destruct (ac_made_connected C); auto using ainv_set_conn.
+  - unfold do_skip. constructor; cbn; auto using (i_perm σ I), (i_nodup σ I), (i_pend σ I).
     + intros d t Hin. destruct (i_range σ I _ _ Hin). split; auto; lia.
     + rewrite (i_tid σ I). apply iter_tid.
 Qed.
@@ -336,11 +345,6 @@ Proof.
 Qed.
 
 (* ---- consequences ------------------------------------------------------------------------------ *)
-
-Definition areach (v : variant) (σ : astate) : Prop := exists ops, σ = arun C v ops (init_state C).
-
-Lemma ainv_reach : forall v σ, areach v σ -> ainv σ.
-Proof. intros v σ [ops ->]. apply ainv_run. apply ainv_init. Qed.
 
 (* every deferred ever returned is in exactly one place, once: displaced, pending, or fired *)
 Theorem partition_all_histories : forall v ops,
@@ -358,24 +362,6 @@ Proof.
   intros v ops. destruct (partition_all_histories v ops) as [Hp Hn].
   apply (Permutation_NoDup (Permutation_sym Hp)) in Hn.
   apply NoDup_app_r in Hn. apply NoDup_app_r in Hn. exact Hn.
-Qed.
-
-(* a deferred that fired is neither pending nor displaced, and was issued *)
-Theorem fired_was_issued : forall v ops d,
-  let σ := arun C v ops (init_state C) in
-  In d (fired_dids σ) -> In d (issued σ) /\ ~ In d (pending_dids σ) /\ ~ In d (a_lost σ).
-Proof.
-  intros v ops d σ Hin. destruct (partition_all_histories v ops) as [Hp Hn]. fold σ in Hp, Hn.
-  assert (HL : NoDup (a_lost σ ++ pending_dids σ ++ fired_dids σ))
-    by (apply (Permutation_NoDup (Permutation_sym Hp)); auto).
-  split; [|split].
-  - eapply Permutation_in; [exact Hp|]. apply in_or_app. right. apply in_or_app. right. auto.
-  - intro Hp2. apply NoDup_app_r in HL. clear - HL Hin Hp2.
-    induction (pending_dids σ) as [|x l IH]; [inversion Hp2|]. cbn in HL. inversion HL; subst.
-    destruct Hp2 as [->|H']; auto. apply H1. apply in_or_app. right; auto.
-  - intro Hl. clear - HL Hin Hl.
-    induction (a_lost σ) as [|x l IH]; [inversion Hl|]. cbn in HL. inversion HL; subst.
-    destruct Hl as [->|H']; auto. apply H1. apply in_or_app. right. apply in_or_app. right; auto.
 Qed.
 
 (* when nothing is pending and nothing was displaced, everything issued has fired exactly once *)
@@ -396,19 +382,6 @@ Proof.
   destruct (i_range _ I _ _ Hin) as [_ ->]. split; auto. apply N.mod_lt. discriminate.
 Qed.
 
-Lemma outstanding_issued : forall σ d, ainv σ -> In d (outstanding σ) -> In d (issued σ).
-Proof.
-  intros σ d I Hin. eapply Permutation_in; [exact (i_perm σ I)|]. unfold Lst, outstanding, pending_dids in *.
-  apply in_app_or in Hin. destruct Hin; apply in_or_app; auto. right. apply in_or_app; auto.
-Qed.
-
-Lemma issued_range : forall σ d, ainv σ -> In d (issued σ) ->
-  1 <= d <= a_alloc σ /\ In (d, (ac_tid_init C + d) mod 65536) (a_sent σ).
-Proof.
-  intros σ d I Hin. unfold issued in Hin. apply in_map_iff in Hin. destruct Hin as ([d' t] & Hd & Hin).
-  cbn in Hd; subst d'. destruct (i_range σ I _ _ Hin) as [Hr ->]. auto.
-Qed.
-
 (* outstanding requests carry pairwise distinct tids while fewer than 65536 tids have been handed
    out since the oldest of them *)
 Theorem distinct_in_window : forall v ops d1 d2 t1 t2,
@@ -424,11 +397,68 @@ Proof.
   apply tid_distinct; auto; lia.
 Qed.
 
-(* under the window hypothesis checked along the history no table slot is ever overwritten *)
+(* ---- plain histories: nobody re-enters the protocol ------------------------------------------------ *)
+
+Definition noreact (σ : astate) : Prop := a_rerr σ = [] /\ a_rcb σ = [].
+
+Lemma react_noreact : forall v σ d o, noreact σ -> react C v σ d o = σ.
+Proof. intros v σ d o [H1 H2]. unfold react. rewrite H1, H2. destruct o; reflexivity. Qed.
+
+Lemma noreact_move : forall σ p d o, noreact σ -> noreact (move_fired σ p d o).
+Proof. intros σ p d o H. exact H. Qed.
+
+Lemma noreact_execute : forall v σ, noreact σ -> noreact (do_execute C v σ).
+Proof.
+  intros v σ H. unfold do_execute, issue_failed, issue_pending. destruct (guard_fails C σ); [exact H|].
+  destruct (add_tx v (a_pending σ) _ _); exact H.
+Qed.
+
+Lemma noreact_handle : forall v σ tid rid, noreact σ -> noreact (handle C v σ tid rid).
+Proof.
+  intros v σ tid rid H. unfold handle. destruct (get_tx v (a_pending σ) _) as [[d p']|]; auto.
+  rewrite react_noreact; auto.
+Qed.
+
+Lemma noreact_seg : forall v u0 frames σ, noreact σ -> noreact (seg_loop C v u0 frames σ).
+Proof.
+  induction frames as [|[[u tid] rid] r IH]; intros σ H; cbn; auto.
+  apply IH. destruct (unit_ok u0 u); auto using noreact_handle.
+Qed.
+
+Lemma noreact_lost_loop : forall v keys σ, noreact σ -> noreact (lost_loop C v keys σ).
+Proof.
+  induction keys as [|k r IH]; intros σ H; cbn; auto.
+  destruct (get_tx v (a_pending σ) k) as [[d p']|]; auto. apply IH. rewrite react_noreact; auto.
+Qed.
+
+Lemma noreact_step : forall v σ o, noreact σ ->
+  match o with ExecuteE | ExecuteC => False | _ => True end -> noreact (astep C v σ o).
+Proof.
+  intros v σ o H Ho. destruct o; try contradiction; cbn [astep].
+  - apply noreact_execute; auto.
+  - apply noreact_seg; auto.
+  - unfold do_lost.
+    assert (H0 : noreact (if ac_lost_clears C && ac_lost_clear_first C then set_conn σ false else σ))
+      by (destruct (ac_lost_clears C && ac_lost_clear_first C); auto).
+    set (σ0 := if ac_lost_clears C && ac_lost_clear_first C then set_conn σ false else σ) in *.
+    assert (H1 : noreact (if ac_lost_loop C then lost_loop C v (map fst (a_pending σ0)) σ0 else σ0))
+      by (destruct (ac_lost_loop C); auto using noreact_lost_loop).
+    destruct (ac_lost_clears C && negb (ac_lost_clear_first C)); auto.
+  - unfold do_made. destruct (ac_made_connected C); auto.
+  - exact H.
+Qed.
+
+Lemma lost_of_handle_noreact : forall v σ tid rid, noreact σ -> a_lost (handle C v σ tid rid) = a_lost σ.
+Proof.
+  intros v σ tid rid H. unfold handle. destruct (get_tx v (a_pending σ) _) as [[d p']|]; auto.
+  rewrite react_noreact; auto.
+Qed.
+
+(* under the window hypothesis checked along a plain history no table slot is ever overwritten *)
 Lemma execute_safe_no_overwrite : forall v σ, ainv σ -> exec_safe σ = true ->
   a_lost (do_execute C v σ) = a_lost σ.
 Proof.
-  intros v σ I Hs. unfold do_execute. destruct (ac_build_guard C && negb (a_conn σ)); [reflexivity|].
+  intros v σ I Hs. unfold do_execute. destruct (guard_fails C σ); [reflexivity|]. unfold issue_pending.
   destruct v; cbn [add_tx].
   - rewrite dset_fresh; [reflexivity|].
     intros [k d] Hin. cbn. rewrite next_tid_eq, (i_tid σ I), mod_succ.
@@ -438,56 +468,150 @@ Proof.
   - reflexivity.
 Qed.
 
-Theorem no_overwrite_in_window : forall v ops σ, ainv σ -> safe_run C v ops σ = true ->
-  a_lost (arun C v ops σ) = a_lost σ.
+Lemma lost_step_plain : forall v σ o, ainv σ -> noreact σ ->
+  match o with ExecuteE | ExecuteC => False | _ => True end ->
+  (match o with Execute => exec_safe σ | _ => true end) = true ->
+  a_lost (astep C v σ o) = a_lost σ.
 Proof.
-  induction ops as [|o r IH]; intros σ I Hs; [reflexivity|].
-  change (arun C v (o :: r) σ) with (arun C v r (astep C v σ o)).
-  cbn [safe_run] in Hs.
-  apply andb_prop in Hs. destruct Hs as [Ho Hr]. rewrite IH; auto using ainv_step.
-  destruct o; cbn; auto.
+  intros v σ o I H Ho Hs. destruct o; try contradiction; cbn [astep].
   - apply execute_safe_no_overwrite; auto.
-  - unfold do_segment. destruct (seg_loop C v _ frames _); reflexivity.
-  - unfold do_lost. destruct (if ac_lost_loop C then _ else _); reflexivity.
+  - unfold do_segment. generalize (match frames with (u, _, _) :: _ => u | [] => ac_unit_default C end). intro u0.
+    revert σ I H Hs. induction frames as [|[[u tid] rid] r IH]; intros σ I H Hs; cbn; auto.
+    destruct (unit_ok u0 u); [|apply IH; auto].
+    rewrite IH; auto using ainv_handle, noreact_handle, lost_of_handle_noreact.
+  - unfold do_lost.
+    assert (E : forall keys σ1, noreact σ1 -> a_lost (lost_loop C v keys σ1) = a_lost σ1).
+    { induction keys as [|k r IH]; intros σ1 H1; cbn; auto.
+      destruct (get_tx v (a_pending σ1) k) as [[d p']|]; auto.
+      rewrite IH; rewrite react_noreact; auto. }
+    destruct (ac_lost_clears C && ac_lost_clear_first C); destruct (ac_lost_loop C);
+      destruct (ac_lost_clears C && negb (ac_lost_clear_first C)); cbn; rewrite ?E; auto.
+  - unfold do_made. destruct (ac_made_connected C); reflexivity.
+  - reflexivity.
 Qed.
 
-Theorem no_overwrite_from_init : forall v ops, safe_run C v ops (init_state C) = true ->
+Lemma plain_cons : forall o r, plain (o :: r) = true ->
+  match o with ExecuteE | ExecuteC => False | _ => True end /\ plain r = true.
+Proof. intros o r H. cbn in H. apply andb_prop in H. destruct H as [Ho Hr]. split; auto. destruct o; auto; discriminate. Qed.
+
+Theorem no_overwrite_in_window : forall v ops σ, ainv σ -> noreact σ -> plain ops = true ->
+  safe_run C v ops σ = true -> a_lost (arun C v ops σ) = a_lost σ.
+Proof.
+  induction ops as [|o r IH]; intros σ I H Hp Hs; [reflexivity|].
+  change (arun C v (o :: r) σ) with (arun C v r (astep C v σ o)).
+  cbn [safe_run] in Hs. apply andb_prop in Hs. destruct Hs as [Ho Hr].
+  destruct (plain_cons _ _ Hp) as [Hpo Hpr].
+  rewrite IH; auto using ainv_step, noreact_step. apply lost_step_plain; auto.
+Qed.
+
+Theorem no_overwrite_from_init : forall v ops, plain ops = true -> safe_run C v ops (init_state C) = true ->
   a_lost (arun C v ops (init_state C)) = [].
-Proof. intros v ops H. rewrite no_overwrite_in_window; auto using ainv_init. Qed.
+Proof. intros v ops Hp H. rewrite no_overwrite_in_window; auto using ainv_init. split; reflexivity. Qed.
 
 (* ---- connection loss ---------------------------------------------------------------------------- *)
 
+Lemma fired_mono_execute : forall v σ x, In x (a_fired σ) -> In x (a_fired (do_execute C v σ)).
+Proof.
+  intros v σ x H. unfold do_execute, issue_failed, issue_pending. destruct (guard_fails C σ); cbn.
+  - apply in_or_app. auto.
+  - destruct (add_tx v (a_pending σ) _ _); exact H.
+Qed.
+
+Lemma fired_mono_react : forall v σ d o x, In x (a_fired σ) -> In x (a_fired (react C v σ d o)).
+Proof.
+  intros v σ d o x H. unfold react.
+  destruct (match o with OErr _ => memN d (a_rerr σ) | OCb _ _ => memN d (a_rcb σ) end); auto using fired_mono_execute.
+Qed.
+
+(* while not connected a (nested) execute leaves the table and the flag alone *)
+Lemma execute_disconnected : forall v σ, a_conn σ = false ->
+  a_pending (do_execute C v σ) = a_pending σ /\ a_conn (do_execute C v σ) = false /\
+  a_fired (do_execute C v σ) = a_fired σ ++ [(a_alloc σ + 1, OErr ConnectionExc)].
+Proof.
+  intros v σ Hc. unfold do_execute, guard_fails. destruct HC as (_ & _ & _ & _ & _ & Hg & Hex & _).
+  rewrite Hg, Hc. cbn. rewrite Hex. auto.
+Qed.
+
+Lemma react_disconnected : forall v σ d o, a_conn σ = false ->
+  a_pending (react C v σ d o) = a_pending σ /\ a_conn (react C v σ d o) = false.
+Proof.
+  intros v σ d o Hc. unfold react.
+  destruct (match o with OErr _ => memN d (a_rerr σ) | OCb _ _ => memN d (a_rcb σ) end); auto.
+  destruct (execute_disconnected v σ Hc) as (H1 & H2 & _). auto.
+Qed.
+
+Lemma lost_loop_drains : forall v p σ, a_conn σ = false -> a_pending σ = p ->
+  let σ' := lost_loop C v (map fst p) σ in
+  a_pending σ' = [] /\ a_conn σ' = false /\
+  (forall x, In x (a_fired σ) -> In x (a_fired σ')) /\
+  (forall k d, In (k, d) p -> In (d, OErr (ac_lost_exn C)) (a_fired σ')).
+Proof.
+  intros v p. induction p as [|[k d] r IH]; intros σ Hc Hp; cbn.
+  - repeat split; auto. intros k d [].
+  - assert (E : get_tx v (a_pending σ) k = Some (d, r)).
+    { rewrite Hp. destruct v; cbn; [rewrite N.eqb_refl|]; reflexivity. }
+    rewrite E.
+    set (σ1 := react C v (move_fired σ r d (OErr (ac_lost_exn C))) d (OErr (ac_lost_exn C))).
+    destruct (react_disconnected v (move_fired σ r d (OErr (ac_lost_exn C))) d (OErr (ac_lost_exn C)) Hc) as [Hp1 Hc1].
+    destruct (IH σ1 Hc1 Hp1) as (A & B & M & F).
+    assert (Hd : In (d, OErr (ac_lost_exn C)) (a_fired σ1)).
+    { apply fired_mono_react. cbn. apply in_or_app. right. left. reflexivity. }
+    repeat split; auto.
+    + intros x Hx. apply M. apply fired_mono_react. cbn. apply in_or_app. auto.
+    + intros k0 d0 [Heq|Hin]; [inversion Heq; subst; apply M; exact Hd|eapply F; eauto].
+Qed.
+
+(* connectionLost: the table is emptied, the flag cleared, every pending deferred gets its errback
+   with ConnectionException — also when errbacks call execute() again while the loop is running *)
 Theorem lost_errbacks_all : forall v σ,
   let σ' := astep C v σ Lost in
   a_pending σ' = [] /\ a_conn σ' = false /\
-  a_fired σ' = a_fired σ ++ map (fun x => (snd x, OErr ConnectionExc)) (a_pending σ).
+  (forall x, In x (a_fired σ) -> In x (a_fired σ')) /\
+  (forall k d, In (k, d) (a_pending σ) -> In (d, OErr ConnectionExc) (a_fired σ')).
 Proof.
-  intros v σ. cbn. unfold do_lost. destruct HC as (_ & _ & _ & _ & _ & _ & _ & _ & Hcl & Hlp & Hex).
-  rewrite Hlp, Hcl. rewrite lost_loop_all. rewrite Hex. cbn. auto.
+  intros v σ. cbn. unfold do_lost. destruct HC as (_ & _ & _ & _ & _ & _ & _ & _ & Hcl & Hlp & Hex & Hcf).
+  rewrite Hlp, Hcl, Hcf. cbn. rewrite <- Hex.
+  apply (lost_loop_drains v (a_pending σ) (set_conn σ false)); reflexivity.
 Qed.
 
 Theorem execute_when_disconnected : forall v σ, a_conn σ = false ->
   let σ' := astep C v σ Execute in
   a_pending σ' = a_pending σ /\ a_conn σ' = false /\
   a_fired σ' = a_fired σ ++ [(a_alloc σ + 1, OErr ConnectionExc)].
-Proof.
-  intros v σ Hc. cbn. unfold do_execute. destruct HC as (_ & _ & _ & _ & _ & Hg & Hex & _).
-  rewrite Hg, Hc. cbn. rewrite Hex. auto.
-Qed.
+Proof. intros v σ Hc. cbn. apply execute_disconnected; auto. Qed.
 
-(* disconnected stays disconnected until connectionMade *)
+(* disconnected stays disconnected (and the table untouched by executes) until connectionMade *)
 Fixpoint no_made (ops : list aop) : bool :=
   match ops with [] => true | Made :: _ => false | _ :: r => no_made r end.
+
+Lemma conn_handle : forall v σ tid rid, a_conn σ = false -> a_conn (handle C v σ tid rid) = false.
+Proof.
+  intros v σ tid rid Hc. unfold handle. destruct (get_tx v (a_pending σ) _) as [[d p']|]; auto.
+  apply react_disconnected. exact Hc.
+Qed.
+
+Lemma conn_step : forall v σ o, a_conn σ = false -> match o with Made => False | _ => True end ->
+  a_conn (astep C v σ o) = false.
+Proof.
+  intros v σ o Hc Ho. destruct o; try contradiction; cbn [astep].
+  - apply execute_disconnected; auto.
+  - unfold do_execute_k. unfold guard_fails. cbn. destruct HC as (_ & _ & _ & _ & _ & Hg & _). rewrite Hg, Hc. cbn.
+    apply react_disconnected. exact Hc.
+  - unfold do_execute_k. unfold guard_fails. cbn. destruct HC as (_ & _ & _ & _ & _ & Hg & _). rewrite Hg, Hc. cbn.
+    apply react_disconnected. exact Hc.
+  - unfold do_segment. generalize (match frames with (u, _, _) :: _ => u | [] => ac_unit_default C end). intro u0.
+    revert σ Hc. induction frames as [|[[u tid] rid] r IH]; intros σ Hc; cbn; auto.
+    apply IH. destruct (unit_ok u0 u); auto using conn_handle.
+  - destruct (lost_errbacks_all v σ) as (_ & H & _). exact H.
+  - exact Hc.
+Qed.
 
 Lemma disconnected_stays : forall v ops σ, a_conn σ = false -> no_made ops = true ->
   a_conn (arun C v ops σ) = false.
 Proof.
-  induction ops as [|o r IH]; intros σ Hc Hn; cbn in *; auto.
-  destruct o; try discriminate; apply IH; auto; cbn.
-  - unfold do_execute. destruct (ac_build_guard C && negb (a_conn σ)); [exact Hc|].
-    destruct (add_tx v (a_pending σ) _ _); exact Hc.
-  - unfold do_segment. destruct (seg_loop C v _ frames _); exact Hc.
-  - unfold do_lost. destruct (if ac_lost_loop C then _ else _). cbn. destruct (ac_lost_clears C); auto.
+  induction ops as [|o r IH]; intros σ Hc Hn; [exact Hc|].
+  change (arun C v (o :: r) σ) with (arun C v r (astep C v σ o)).
+  apply IH; [apply conn_step; auto; destruct o; auto; discriminate|destruct o; auto; discriminate].
 Qed.
 
 (* ---- dictionary variant: keys, right reply, unsolicited / duplicate replies ------------------------ *)
@@ -497,69 +621,105 @@ Record dinv (σ : astate) : Prop := {
   d_cb : forall d tid rid, In (d, OCb tid rid) (a_fired σ) -> In (d, tid) (a_sent σ);
   d_pend : forall k d, In (k, d) (a_pending σ) -> In (d, k) (a_sent σ) }.
 
-Lemma handle_dict : forall p f tid rid p' f',
-  handle C VDict (p, f) tid rid = (p', f') -> NoDup (map fst p) ->
-  NoDup (map fst p') /\ (forall x, In x p' -> In x p) /\
-  (forall y, In y f' -> In y f \/ exists d, y = (d, OCb tid rid) /\ In (tid, d) p).
+Lemma dinv_ext : forall σ σ', a_pending σ' = a_pending σ -> a_fired σ' = a_fired σ -> a_sent σ' = a_sent σ ->
+  dinv σ -> dinv σ'.
+Proof. intros σ σ' H1 H2 H3 [D1 D2 D3]. constructor; rewrite ?H1, ?H2, ?H3; auto. Qed.
+
+Lemma dinv_issue_failed : forall σ, dinv σ -> dinv (issue_failed C σ).
 Proof.
-  intros p f tid rid p' f' H Hn. unfold handle in H.
-  destruct HC as (_ & _ & _ & _ & _ & _ & _ & Hk & _). rewrite Hk in H. cbn [get_tx] in H.
-  destruct (dpop p tid) as [[d p2]|] eqn:E; inversion H; subst.
-  - destruct (dpop_keys _ _ _ _ E Hn) as [H1 _]. destruct (dpop_in _ _ _ _ E) as [H2 H3].
-    split; auto. split; auto. intros y Hy. apply in_app_or in Hy. destruct Hy as [|[<-|[]]]; eauto.
-  - split; auto.
+  intros σ D. unfold issue_failed. constructor; cbn.
+  - apply (d_keys σ D).
+  - intros d tid rid Hin. apply in_app_or in Hin. apply in_or_app. destruct Hin as [Hin|[Heq|[]]].
+    + left. eapply (d_cb σ D); eauto.
+    + inversion Heq.
+  - intros k d Hin. apply in_or_app. left. apply (d_pend σ D); auto.
 Qed.
 
-Lemma seg_loop_dict : forall u0 frames p f p' f',
-  seg_loop C VDict u0 frames (p, f) = (p', f') -> NoDup (map fst p) ->
-  NoDup (map fst p') /\ (forall x, In x p' -> In x p) /\
-  (forall y, In y f' -> In y f \/ exists d tid rid, y = (d, OCb tid rid) /\ In (tid, d) p).
+Lemma dinv_issue_pending : forall σ, dinv σ -> dinv (issue_pending C VDict σ).
 Proof.
-  induction frames as [|[[u tid] rid] r IH]; intros p f p' f' H Hn; cbn [seg_loop] in H.
-  - inversion H; subst. auto.
-  - destruct (unit_ok u0 u); [|inversion H; subst; auto].
-    destruct (handle C VDict (p, f) tid rid) as [p1 f1] eqn:Eh.
-    destruct (handle_dict _ _ _ _ _ _ Eh Hn) as (N1 & S1 & F1).
-    destruct (IH _ _ _ _ H N1) as (N2 & S2 & F2). split; auto. split; auto.
-    intros y Hy. destruct (F2 y Hy) as [Hy1|(d & t & q & -> & Hin)].
-    + destruct (F1 y Hy1) as [|(d & -> & Hin)]; eauto 6.
-    + right. exists d, t, q. auto.
+  intros σ D. unfold issue_pending. cbn [add_tx].
+  destruct (dset (a_pending σ) _ _) as [p' o] eqn:Ea. constructor; cbn.
+  - eapply dset_keys; eauto. apply (d_keys σ D).
+  - intros d tid rid Hin. apply in_or_app. left. eapply (d_cb σ D); eauto.
+  - intros k d Hin. apply in_or_app. destruct (dset_in _ _ _ _ _ _ Ea Hin) as [Heq|Hold].
+    + inversion Heq; subst. right; left; reflexivity.
+    + left. apply (d_pend σ D); auto.
 Qed.
 
+Lemma dinv_execute : forall σ, dinv σ -> dinv (do_execute C VDict σ).
+Proof.
+  intros σ D. unfold do_execute. destruct (guard_fails C σ); auto using dinv_issue_failed, dinv_issue_pending.
+Qed.
+
+Lemma dinv_react : forall σ d o, dinv σ -> dinv (react C VDict σ d o).
+Proof.
+  intros σ d o D. unfold react.
+  destruct (match o with OErr _ => memN d (a_rerr σ) | OCb _ _ => memN d (a_rcb σ) end); auto using dinv_execute.
+Qed.
+
+Lemma dinv_move_cb : forall σ tid rid d p', dinv σ -> dpop (a_pending σ) tid = Some (d, p') ->
+  dinv (move_fired σ p' d (OCb tid rid)).
+Proof.
+  intros σ tid rid d p' D E. destruct (dpop_keys _ _ _ _ E (d_keys σ D)) as [H1 _].
+  destruct (dpop_in _ _ _ _ E) as [H2 H3]. constructor; cbn; auto.
+  - intros d0 t0 r0 Hin. apply in_app_or in Hin. destruct Hin as [Hin|[Heq|[]]].
+    + eapply (d_cb σ D); eauto.
+    + inversion Heq; subst. apply (d_pend σ D); auto.
+  - intros k d0 Hin. apply (d_pend σ D). auto.
+Qed.
+
+Lemma dinv_move_err : forall σ k e d p', dinv σ -> dpop (a_pending σ) k = Some (d, p') ->
+  dinv (move_fired σ p' d (OErr e)).
+Proof.
+  intros σ k e d p' D E. destruct (dpop_keys _ _ _ _ E (d_keys σ D)) as [H1 _].
+  destruct (dpop_in _ _ _ _ E) as [H2 H3]. constructor; cbn; auto.
+  - intros d0 t0 r0 Hin. apply in_app_or in Hin. destruct Hin as [Hin|[Heq|[]]].
+    + eapply (d_cb σ D); eauto.
+    + inversion Heq.
+  - intros k0 d0 Hin. apply (d_pend σ D). auto.
+Qed.
+
+Lemma dinv_handle : forall σ tid rid, dinv σ -> dinv (handle C VDict σ tid rid).
+Proof.
+  intros σ tid rid D. unfold handle. destruct HC as (_ & _ & _ & _ & _ & _ & _ & Hk & _). rewrite Hk. cbn [get_tx].
+  destruct (dpop (a_pending σ) tid) as [[d p']|] eqn:E; auto.
+  apply dinv_react. apply dinv_move_cb; auto.
+Qed.
+
+Lemma dinv_execute_k : forall σ re rc, dinv σ -> dinv (do_execute_k C VDict σ re rc).
+Proof.
+  intros σ re rc D. unfold do_execute_k. set (σ1 := register σ (a_alloc σ + 1) re rc).
+  assert (D1 : dinv σ1) by (apply (dinv_ext σ); auto).
+  destruct (guard_fails C σ1).
+  - apply dinv_react. apply dinv_issue_failed. exact D1.
+  - apply dinv_issue_pending. exact D1.
+Qed.
+
+Lemma dinv_lost_loop : forall keys σ, dinv σ -> dinv (lost_loop C VDict keys σ).
+Proof.
+  induction keys as [|k r IH]; intros σ D; cbn [lost_loop get_tx]; auto.
+  destruct (dpop (a_pending σ) k) as [[d p']|] eqn:E; auto.
+  apply IH. apply dinv_react. eapply dinv_move_err; eauto.
+Qed.
 
 Lemma dinv_step : forall σ o, dinv σ -> dinv (astep C VDict σ o).
 Proof.
-  intros σ o D. destruct o as [|frames| | |n]; cbn [astep].
-  - unfold do_execute. destruct (ac_build_guard C && negb (a_conn σ)).
-    + constructor; cbn.
-      * apply (d_keys σ D).
-      * intros d tid rid Hin. apply in_app_or in Hin. apply in_or_app. destruct Hin as [Hin|[Heq|[]]].
-        -- left. eapply (d_cb σ D); eauto.
-        -- inversion Heq.
-      * intros k d Hin. apply in_or_app. left. apply (d_pend σ D); auto.
-    + cbn [add_tx]. destruct (dset (a_pending σ) _ _) as [p' o] eqn:Ea. constructor; cbn.
-      * eapply dset_keys; eauto. apply (d_keys σ D).
-      * intros d tid rid Hin. apply in_or_app. left. eapply (d_cb σ D); eauto.
-      * intros k d Hin. apply in_or_app. destruct (dset_in _ _ _ _ _ _ Ea Hin) as [Heq|Hold].
-        -- inversion Heq; subst. right; left; reflexivity.
-        -- left. apply (d_pend σ D); auto.
-  - unfold do_segment.
-    destruct (seg_loop C VDict _ frames (a_pending σ, a_fired σ)) as [p' f'] eqn:Es.
-    destruct (seg_loop_dict _ _ _ _ _ _ Es (d_keys σ D)) as (N1 & S1 & F1).
-    constructor; cbn; auto.
-    + intros d tid rid Hin. destruct (F1 _ Hin) as [Hold|(d' & t' & r' & Heq & Hp)].
-      * eapply (d_cb σ D); eauto.
-      * inversion Heq; subst. apply (d_pend σ D); auto.
-    + intros k d Hin. apply (d_pend σ D). auto.
-  - unfold do_lost. destruct HC as (_ & _ & _ & _ & _ & _ & _ & _ & _ & Hlp & _). rewrite Hlp.
-    rewrite lost_loop_all. constructor; cbn.
-    + constructor.
-    + intros d tid rid Hin. apply in_app_or in Hin. destruct Hin as [Hin|Hin].
-      * eapply (d_cb σ D); eauto.
-      * apply in_map_iff in Hin. destruct Hin as (x & Hx & _). inversion Hx.
-    + intros k d [].
-  - unfold do_made. constructor; cbn; [apply (d_keys σ D)|apply (d_cb σ D)|apply (d_pend σ D)].
-  - unfold do_skip. constructor; cbn; [apply (d_keys σ D)|apply (d_cb σ D)|apply (d_pend σ D)].
+  intros σ o D. destruct o as [| | |frames| | |n]; cbn [astep].
+  - apply dinv_execute; auto.
+  - apply dinv_execute_k; auto.
+  - apply dinv_execute_k; auto.
+  - unfold do_segment. generalize (match frames with (u, _, _) :: _ => u | [] => ac_unit_default C end). intro u0.
+    revert σ D. induction frames as [|[[u tid] rid] r IH]; intros σ D; cbn; auto.
+    apply IH. destruct (unit_ok u0 u); auto using dinv_handle.
+  - unfold do_lost.
+    assert (D0 : dinv (if ac_lost_clears C && ac_lost_clear_first C then set_conn σ false else σ))
+      by (destruct (ac_lost_clears C && ac_lost_clear_first C); auto; apply (dinv_ext σ); auto).
+    set (σ0 := if ac_lost_clears C && ac_lost_clear_first C then set_conn σ false else σ) in *.
+    assert (D1 : dinv (if ac_lost_loop C then lost_loop C VDict (map fst (a_pending σ0)) σ0 else σ0))
+      by (destruct (ac_lost_loop C); auto using dinv_lost_loop).
+    destruct (ac_lost_clears C && negb (ac_lost_clear_first C)); auto. eapply dinv_ext; [| | |exact D1]; auto.
+  - unfold do_made. destruct (ac_made_connected C); auto. apply (dinv_ext σ); auto.
+  - unfold do_skip. apply (dinv_ext σ); auto.
 Qed.
 
 Lemma dinv_init : dinv (init_state C).
@@ -568,19 +728,24 @@ Proof. constructor; cbn; [constructor|intros ? ? ? []|intros ? ? []]. Qed.
 Lemma dinv_run : forall ops σ, dinv σ -> dinv (arun C VDict ops σ).
 Proof. induction ops as [|o r IH]; intros σ D; cbn; auto. apply IH. apply dinv_step; auto. Qed.
 
-(* a callback carries the reply whose transaction id was written for that very deferred *)
+(* a callback carries the reply whose transaction id was written for that very deferred — also
+   when callbacks / errbacks re-enter the protocol *)
 Theorem right_reply_all_histories : forall ops d tid rid,
   let σ := arun C VDict ops (init_state C) in
   In (d, OCb tid rid) (a_fired σ) -> In (d, tid) (a_sent σ).
 Proof. intros ops d tid rid σ. apply (d_cb _ (dinv_run ops _ dinv_init)). Qed.
 
+Lemma segment1 : forall σ u tid rid,
+  astep C VDict σ (Segment [(u, tid, rid)]) = handle C VDict σ tid rid.
+Proof.
+  intros σ u tid rid. cbn. unfold do_segment. cbn. unfold unit_ok. rewrite N.eqb_refl, orb_true_r. reflexivity.
+Qed.
+
 Lemma reply_unknown_noop : forall σ u tid rid,
   dpop (a_pending σ) tid = None -> astep C VDict σ (Segment [(u, tid, rid)]) = σ.
 Proof.
-  intros σ u tid rid Hn. cbn. unfold do_segment. cbn.
-  destruct HC as (_ & _ & _ & _ & _ & _ & _ & Hk & _).
-  unfold unit_ok. rewrite N.eqb_refl, orb_true_r. unfold handle. rewrite Hk. cbn [get_tx]. rewrite Hn.
-  destruct σ; reflexivity.
+  intros σ u tid rid Hn. rewrite segment1. unfold handle.
+  destruct HC as (_ & _ & _ & _ & _ & _ & _ & Hk & _). rewrite Hk. cbn [get_tx]. rewrite Hn. reflexivity.
 Qed.
 
 (* a reply whose tid is not in the table changes nothing *)
@@ -589,31 +754,36 @@ Theorem unsolicited_dropped : forall ops u tid rid,
   ~ In tid (map fst (a_pending σ)) -> astep C VDict σ (Segment [(u, tid, rid)]) = σ.
 Proof. intros ops u tid rid σ Hn. apply reply_unknown_noop. apply dpop_none; auto. Qed.
 
-(* a second copy of a reply changes nothing *)
-Theorem duplicate_dropped : forall ops u tid rid u' rid',
+(* a reply for a pending tid fires exactly that deferred, with that reply; then the user's callback runs *)
+Theorem solicited_delivered : forall σ u tid rid d p',
+  dpop (a_pending σ) tid = Some (d, p') ->
+  astep C VDict σ (Segment [(u, tid, rid)]) =
+  react C VDict (move_fired σ p' d (OCb tid rid)) d (OCb tid rid).
+Proof.
+  intros σ u tid rid d p' E. rewrite segment1. unfold handle.
+  destruct HC as (_ & _ & _ & _ & _ & _ & _ & Hk & _). rewrite Hk. cbn [get_tx]. rewrite E. reflexivity.
+Qed.
+
+(* a second copy of a reply changes nothing (callbacks that do not re-enter the protocol) *)
+Theorem duplicate_dropped : forall ops u tid rid u' rid', plain ops = true ->
   let σ := arun C VDict ops (init_state C) in
   let σ1 := astep C VDict σ (Segment [(u, tid, rid)]) in
   astep C VDict σ1 (Segment [(u', tid, rid')]) = σ1.
 Proof.
-  intros ops u tid rid u' rid' σ σ1. apply reply_unknown_noop.
+  intros ops u tid rid u' rid' Hp σ σ1. apply reply_unknown_noop.
   pose proof (dinv_run ops _ dinv_init) as D. fold σ in D.
-  unfold σ1. cbn. unfold do_segment. cbn.
-  destruct HC as (_ & _ & _ & _ & _ & _ & _ & Hk & _).
-  unfold unit_ok. rewrite N.eqb_refl, orb_true_r. unfold handle. rewrite Hk. cbn [get_tx].
-  destruct (dpop (a_pending σ) tid) as [[d p']|] eqn:E; cbn; auto.
-  destruct (dpop_keys _ _ _ _ E (d_keys σ D)) as [_ Hnot]. apply dpop_none; auto.
-Qed.
-
-(* a reply for a pending tid fires exactly that deferred, with that reply, and nothing else *)
-Theorem solicited_delivered : forall σ u tid rid d p',
-  dpop (a_pending σ) tid = Some (d, p') ->
-  let σ' := astep C VDict σ (Segment [(u, tid, rid)]) in
-  a_fired σ' = a_fired σ ++ [(d, OCb tid rid)] /\ a_pending σ' = p'.
-Proof.
-  intros σ u tid rid d p' E. cbn. unfold do_segment. cbn.
-  destruct HC as (_ & _ & _ & _ & _ & _ & _ & Hk & _).
-  unfold unit_ok. rewrite N.eqb_refl, orb_true_r. unfold handle. rewrite Hk. cbn [get_tx]. rewrite E.
-  cbn. auto.
+  assert (Hnr : noreact σ).
+  { unfold σ. clear - Hp HC. assert (G : forall ops σ0, noreact σ0 -> plain ops = true -> noreact (arun C VDict ops σ0)).
+    { induction ops0 as [|o r IH]; intros σ0 H0 Hp0; [exact H0|].
+      change (arun C VDict (o :: r) σ0) with (arun C VDict r (astep C VDict σ0 o)).
+      destruct (plain_cons _ _ Hp0). apply IH; auto using noreact_step. }
+    apply G; auto. split; reflexivity. }
+  unfold σ1. rewrite segment1. unfold handle.
+  destruct HC as (_ & _ & _ & _ & _ & _ & _ & Hk & _). rewrite Hk. cbn [get_tx].
+  destruct (dpop (a_pending σ) tid) as [[d p']|] eqn:E.
+  - rewrite react_noreact by exact Hnr. cbn.
+    destruct (dpop_keys _ _ _ _ E (d_keys σ D)) as [_ Hnot]. apply dpop_none; auto.
+  - exact E.
 Qed.
 
 End WithGood.
